@@ -8,6 +8,10 @@ LEVEL = "model_checking"
 def run(res, tier):
     cfgs = ["L4Router_MC_c01.cfg", "L4Router_MC_q3.cfg"] if tier == "quick" else ["L4Router_MC_c01.cfg", "L4Router_MC_q3.cfg", "L4Router_MC_q.cfg", "L4Router_MC_t2.cfg"]
     router.run(res, "C01", tier, cfgs=cfgs)
+    # the consumer behind the listener wrapper (plain and TLS-terminated hand-over) is a handler that consumes the connection too:
+    # it must read the client's stream intact from the first unconsumed byte (clause L3 of L4ListenerAbs)
+    import check_c13
+    check_c13.add_to(res, tier, ("L3",), "C01")
     res.coverage["checker_cmd"] = "tlc L4Router_MC.tla (c01: shipped wrapping handlers, real sizes) + vdrive router-replay/router-random + tlc L4RouterTrace.tla"
 
 
